@@ -91,6 +91,16 @@ def run_case(cs):
     if pats and rng.random() < 0.7:
         tree["zz.tmp"] = b"t"
     d = cs.dir()
+    if rng.random() < 0.1:
+        # a backup of an absolute path inside the tree: the folder chain below "backup" repeats the full path of the
+        # baseline root (and of the plain variant), as `cp --parents` or rsync -R leave it behind
+        for where in (os.path.join(d, "vf-base", "root"), os.path.join(d, "v0", "p", "root")):
+            chain = "backup" + where
+            parts = chain.split("/")
+            for i in range(1, len(parts) + 1):
+                tree.setdefault("/".join(parts[:i]), None)
+            tree[chain + "/f.txt"] = b"mirrored" + rng.randbytes(2)
+        cs.count("trees_repeating_their_own_absolute_path")
     src = os.path.join(d, "src", "root")
     world.write_tree(src, tree)
     os.makedirs(src, exist_ok=True)
